@@ -216,20 +216,15 @@ def runSeq (b : Both) : List (Event × Nat) → Res Both
     if code = 1 ∨ code = 2 ∨ code = 3 ∨ code > 100 then
       -- the first write transaction (writeDocument: shelf operations 1 and 2) commits on its own
       let mode := if code = 1 ∨ code = 101 ∨ code = 102 then 1 else 2
-      match dAdd cfg b.blob b.s e mode with
-      | .ok (blob', _) => runSeq { b with blob := blob' } rest
+      match dAddS cfg b.blob b.s b.stats e mode with
+      | .ok (blob', _, _) => runSeq { b with blob := blob' } rest
       | .err x => .err x
       | .panic x => .panic x
     else
       let s0 := if code = 4 then reload b.s else b.s
-      match dAdd cfg b.blob s0 e 0, sAdd cfg ((alGet b.sh e.doc.id).getD {}) e with
-      | .ok (blob', s'), .ok none => runSeq { b with s := s', blob := blob' } rest
-      | .ok (blob', s'), .ok (some st') =>
-        let lastVersion := match (s'.get e.doc.id).chain.getLast? with | some p => p.2.version | none => 0
-        match statsStep b.stats (s0.get e.doc.id).conflicted (s'.get e.doc.id).conflicted lastVersion with
-        | .ok stats' => runSeq { s := s', sh := alPut b.sh e.doc.id st', blob := blob', stats := stats' } rest
-        | .err x => .err ("stats-model:" ++ x)
-        | .panic x => .panic ("stats-model:" ++ x)
+      match dAddS cfg b.blob s0 b.stats e 0, sAdd cfg ((alGet b.sh e.doc.id).getD {}) e with
+      | .ok (blob', s', stats'), .ok none => runSeq { b with s := s', blob := blob', stats := stats' } rest
+      | .ok (blob', s', stats'), .ok (some st') => runSeq { s := s', sh := alPut b.sh e.doc.id st', blob := blob', stats := stats' } rest
       | .ok _, .err x => .err ("shelf-model:" ++ x)
       | .ok _, .panic x => .panic ("shelf-model:" ++ x)
       | .err x, _ => .err x
